@@ -176,9 +176,24 @@ class Histogram1D(ObjectWithBinning, HistogramBase):
             self._stats = stats or INVALID_STATISTICS
 
         if self.keep_missed:
-            self._missed = np.array(missed, dtype=self.dtype)
+            self._missed = np.array(missed, dtype=self._missed_dtype(missed))
         else:
             self._missed = np.zeros(3, dtype=self.dtype)
+
+    def _missed_dtype(self, values) -> np.dtype:
+        """Type for the missed counts: that of the contents, unless an "unknown" (NaN) has to be kept.
+
+        (Under/overflow of non-consecutive bins is unknown; integers cannot express that.)
+        """
+        if self.dtype.kind in "iu" and np.any(np.isnan(np.asarray(values, dtype=float))):
+            return np.dtype(np.float64)
+        return self.dtype
+
+    def _set_missed(self, index: int, value) -> None:
+        dtype = self._missed_dtype([value])
+        if dtype != self._missed.dtype and self._missed.dtype.kind in "iu":
+            self._missed = self._missed.astype(dtype)
+        self._missed[index] = value
 
     def copy(self, *, include_frequencies: bool = True) -> "Histogram1D":
         # Overriden to include the statistics as well
@@ -302,7 +317,7 @@ class Histogram1D(ObjectWithBinning, HistogramBase):
 
     @underflow.setter
     def underflow(self, value):
-        self._missed[0] = value
+        self._set_missed(0, value)
 
     @property
     def overflow(self):
@@ -312,7 +327,7 @@ class Histogram1D(ObjectWithBinning, HistogramBase):
 
     @overflow.setter
     def overflow(self, value):
-        self._missed[1] = value
+        self._set_missed(1, value)
 
     @property
     def inner_missed(self):
@@ -322,7 +337,7 @@ class Histogram1D(ObjectWithBinning, HistogramBase):
 
     @inner_missed.setter
     def inner_missed(self, value):
-        self._missed[2] = value
+        self._set_missed(2, value)
 
     def find_bin(self, value: float, axis: Optional[Axis] = None) -> Optional[int]:
         """Index of bin corresponding to a value.
